@@ -283,6 +283,35 @@ def check_opencache(ctx, prog):
                      "such object (the record dimension's length misses the records still in the log)" % f, fn=fn, line=fn.line, inst=inst)
 
 
+def check_logret(ctx, prog):
+    """R1.logret: the log files are written with POSIX calls behind ncbbio_sharedfile_*; every function that can return such a
+    failure (closure over direct calls) has its result carried to a non-zero return by each caller in the driver."""
+    from callgraph import CallGraph
+    from rules import c11
+    cg = CallGraph(prog)
+    ioerr = set()
+    for fn in prog.all_functions():
+        if fn.name.startswith("ncbbio_sharedfile_") and fn.type(fn.ret).get("k") != "void":
+            ioerr.add(fn.name)
+    ctx.require(len(ioerr) >= 5, "R1.logret: only %d ncbbio_sharedfile_* functions return a status" % len(ioerr))
+    changed = True
+    while changed:
+        changed = False
+        for fn in prog.all_functions():
+            if fn.name in ioerr or fn.type(fn.ret).get("k") == "void":
+                continue
+            if any(n in ioerr for (_, _, c, names) in cg.calls.get(fn, []) for n in names if c.get("fn")):
+                ioerr.add(fn.name)
+                changed = True
+    for fn in prog.all_functions():
+        allc = [cc for (_, _, cc, _) in cg.calls.get(fn, [])]
+        for (b, i, c, names) in cg.calls.get(fn, []):
+            if c.get("fn") in ioerr:
+                ctx.functions_analysed.add((fn.unit.name, fn.name))
+                c11.check_site(ctx, fn, c, "R1.logret", c11.site_id(fn, c, allc), c["fn"])
+    ctx.min_instances("R1.logret", 40)
+
+
 def run(ctx):
     ctx.rule("R2.flush", "visibility points flush the log before forwarding to the ncmpio driver")
     ctx.rule("R3.logdel", "log files are removed at close under the delete-on-close hint")
@@ -303,6 +332,21 @@ def run(ctx):
     ctx.rule("R9.nullarith", "burst-buffer driver: a pointer parameter the function tests against NULL is not used unprotected where the "
              "NULL side of such a test can reach")
     r9nullarith.check(ctx, prog, "R9.nullarith", min_params=12)
+    ctx.rule("R1.logret", "a failing log-file operation (ncbbio_sharedfile_*, and every driver function that can return its "
+             "status) makes each calling driver function return non-zero on all paths after the call")
+    check_logret(ctx, prog)
+    from rules import r8bbwait
+    ctx.rule("R8.bbwait", "ncbbio_wait: each named request is completed once by the driver that owns it (even ids: the log's put "
+             "list, odd ids: ncmpio, halved), NC_REQ_NULL completes nothing, statuses follow the caller's list order, the list is "
+             "all NC_REQ_NULL after a clean wait (bounded: lists of up to 4 ids)")
+    wfn = ctx.need_fn(prog, "ncbbio_wait")
+    def mac(nm):
+        try:
+            return int(wfn.unit.macros[nm].strip("() "), 0)
+        except Exception:
+            raise AnalysisBroken("macro %s not found / not a constant" % nm)
+    nw = r8bbwait.check(ctx, wfn, "R8.bbwait", mac("NC_EINVAL_REQUEST"), mac("NC_MODE_INDEP"))
+    ctx.require(nw >= 5000, "R8.bbwait: only %d cells evaluated" % nw)
     from rules import r8flushbatch
     ctx.rule("R8.flushbatch", "each flush round gathers exactly the data-log bytes of the valid entries of its batch, cancelled entries "
              "skipped after what precedes them has been read (bounded: logs of up to 4 entries)")
